@@ -175,6 +175,30 @@ Theorem c18_auto_tag_after_string_refuted : exists h : list (dop nat),
 Proof. eexists. exact auto_tag_after_string_fails. Qed.
 Print Assumptions c18_auto_tag_after_string_refuted.
 
+(* ---- what the static tie reads off the code in addition (Model.C18 part E) ----
+   the packed array [axis | data] is allocated with the common dtype of the two (numpy.result_type): whatever the dtypes,
+   every value that fits its own array's dtype is stored unchanged, i.e. the typed packing IS the packing of the
+   theorems above; [cast] is any family of casts that is monotone along the tower integer < float < complex *)
+Theorem c18_pack_common_dtype_lossless : forall (A : Type) (cast : dty -> A -> A),
+  (forall t t' x, dt_le t t' = true -> fits A cast t x -> fits A cast t' x) ->
+  forall td ta ax d, Forall (fits A cast td) (flat A d) -> Forall (fits A cast ta) ax ->
+  pack_t A cast (dt_join td ta) ax d = pack A ax d.
+Proof. exact pack_t_lossless. Qed.
+Print Assumptions c18_pack_common_dtype_lossless.
+
+(* allocated with the dtype of the (real) axis instead, complex data lose their imaginary parts *)
+Theorem c18_pack_axis_dtype_refuted :
+  pack_t _ zcast DReal [(1, 0)%Z; (2, 0)%Z] (A2 1 [[(5, 7)%Z]; [(6, 8)%Z]]) = Some (A2 2 [[(1, 0); (5, 0)]; [(2, 0); (6, 0)]]%Z) /\
+  pack_t _ zcast (dt_join DCplx DReal) [(1, 0)%Z; (2, 0)%Z] (A2 1 [[(5, 7)%Z]; [(6, 8)%Z]]) = Some (A2 2 [[(1, 0); (5, 7)]; [(2, 0); (6, 8)]]%Z).
+Proof. exact pack_axis_dtype_loses. Qed.
+Print Assumptions c18_pack_axis_dtype_refuted.
+
+(* what a format does to an array depends only on the writer/reader pair its extension dispatches to *)
+Theorem c18_format_by_kind : forall (A : Type) (v : dvariant) (f : fmt) (wa : bool) (d : arr A),
+  through A v f wa d = through_k A v (kind_of f) wa d.
+Proof. exact through_by_kind. Qed.
+Print Assumptions c18_format_by_kind.
+
 (* non-vacuity *)
 Example c18_example :
   export_import Z drepaired Txt (Some [10; 20; 30]%Z) (A2 2 [[1; 2]; [3; 4]; [5; 6]]%Z)
@@ -184,3 +208,8 @@ Example c18_example :
   snd (zrun zfresh [ONew Z Z 0 5%Z; ONew Z Z 1 7%Z; OSave Z Z 1 0; OEnter Z Z 0 3%Z; OLoad Z Z 0 2; ORead Z Z 2;
                     ORead Z Z 1; OLeave Z Z; ORead Z Z 2]) = [Val Z 2 10%Z; Val Z 1 10%Z; Val Z 2 7%Z].
 Proof. repeat split; vm_compute; reflexivity. Qed.
+(* the hypotheses of c18_pack_common_dtype_lossless are satisfiable: the cast of the correspondence instance *)
+Example c18_example_dtype :
+  (forall t t' x, dt_le t t' = true -> fits _ zcast t x -> fits _ zcast t' x) /\
+  Forall (fits _ zcast DCplx) (flat _ (A1 [(5, 7)%Z])) /\ Forall (fits _ zcast DReal) [(1, 0)%Z].
+Proof. split; [exact zcast_mono | split; repeat constructor]. Qed.
